@@ -183,6 +183,45 @@ def temp_worlds(bases):
             out.append((wit, {"adversarial": [{"slot": "wparam", "name": nm, "pool": "temps"}]}))
     return out
 
+SPECIAL_LEN = [9, 10, 13, 32, 32, 32, 34, 92, 127, 128]      # LEB length prefixes \t \n \r space " \ DEL and a 2-byte prefix
+
+def kebab(rng, n):
+    """a valid lower-case kebab identifier of exactly n characters"""
+    cs = [rng.choice("abcdefghijklmnopqrstuvwxyz") for _ in range(n)]
+    for k in range(2, n - 2):
+        if rng.random() < 0.12 and cs[k - 1] != "-" and k + 1 < n: cs[k] = "-"
+    for k in range(1, n):
+        if cs[k] == "-" and (cs[k - 1] == "-" or k == n - 1): cs[k] = "x"
+    return identgen.esc("".join(cs))
+
+def meta_worlds(rng, n):
+    """worlds whose encoded component type contains the bytes that need care in a Rust byte-string literal
+    (0x09 0x0a 0x0d 0x20 0x22 0x5c 0x7f, >= 0x80) as name-length prefixes and item counts, at shifting offsets"""
+    out = []
+    for _ in range(n):
+        L = lambda: rng.choice(SPECIAL_LEN)
+        pad = kebab(rng, rng.randint(1, 60))
+        ncase = rng.choice([9, 10, 13, 32, 34, 92, 33])
+        nfield = rng.choice([9, 10, 13, 32, 34, 2])
+        ver = rng.choice(["", "@0.2.0", "@1.0.0-rc.1"])
+        iname = kebab(rng, rng.choice([L(), max(2, 32 - len("ns:pk/") - len(ver)), 7]))
+        wit = (f"package ns:pk{ver};\ninterface {identgen.esc(iname)} {{\n"
+               f"  enum e {{ " + ", ".join(f"c{k}" for k in range(ncase)) + " }\n"
+               f"  record r {{ " + ", ".join(f"f{k}: u32" for k in range(nfield)) + " }\n"
+               f"  {pad}x: func();\n"
+               f"  {kebab(rng, L())}: func({kebab(rng, L())}: string, q: e) -> r;\n}}\n"
+               f"world {kebab(rng, rng.choice([5, 9, 13, 32]))} {{\n  import {identgen.esc(iname)};\n"
+               f"  export {kebab(rng, L())}: func({kebab(rng, L())}: list<u8>) -> string;\n}}\n")
+        out.append((wit, {"adversarial": []}))
+    return out
+
+def section_literal(src):
+    """(version, N, text following `*b"`) of the component-type static of a generated file, or None"""
+    m = re.search(r'link_section = "component-type:wit-bindgen:([^:"]+):[^"]*"\)\]\s*(?:#\[[^\n]*\]\s*)*pub static __WIT_BINDGEN_COMPONENT_TYPE: \[u8; (\d+)\] = \*b"', src)
+    if not m: return None
+    n = int(m.group(2))
+    return m.group(1), n, src[m.end():m.end() + 5 * n + 4000]
+
 def run(c):
     c.level = "proof"
     c.rule = ("names: one evaluation = one name through the real to_rust_ident/heck/validate_id and the model (non-trivial = valid WIT "
@@ -249,6 +288,8 @@ def run(c):
     for k, (wit, meta) in enumerate(prew): jobs.append({"wit": wit, "opts": OPTS[k % 2], "meta": meta, "origin": "prelude-types"})
     bases = (info.get("rust") or {}).get("temp_bases", [])
     for wit, meta in temp_worlds(bases): jobs.append({"wit": wit, "opts": "stubs", "meta": meta, "origin": "temps"})
+    metaw = meta_worlds(c.rng, 40 if c.tier == "quick" else 600)
+    for wit, meta in metaw: jobs.append({"wit": wit, "opts": c.rng.choice(OPTS), "meta": meta, "origin": "meta-bytes"})
     n_seeded = 90 if c.tier == "quick" else 3000
     for i in range(n_seeded):
         wit, meta = identgen.gen_world(c.rng, "rust")
@@ -264,11 +305,54 @@ def run(c):
     M = ic.model_lookup(model, allnames)
     gout = run_lines([impl, "rustgen"], [j["opts"] + " " + ("@" + hx(j["path"]) if "path" in j else hx(j["wit"])) + " -" for j in jobs], timeout=1200)
     phase("validity + scopes + model + generator")
+    # ---------------------------------------------------------------- "exactly that world": the embedded metadata
+    bytelit = c.model_exe("m_bytelit")
+    lit_jobs = []
+    for i, (j, g) in enumerate(zip(jobs, gout)):
+        files = ic.decode_files(g)
+        if not files: continue
+        sl = section_literal(next(iter(files.values())))
+        if sl is None:
+            c.spec_violation("rust-component-type-literal:missing", "generated Rust has no __WIT_BINDGEN_COMPONENT_TYPE static",
+                             {"wit": j.get("wit") or j.get("path"), "opts": j["opts"]}); continue
+        lit_jobs.append((i, sl))
+    if bytelit and lit_jobs:
+        mouts = run_lines([impl, "rustmeta"], [("@" + hx(jobs[i]["path"]) if "path" in jobs[i] else hx(jobs[i]["wit"])) + " - " + sl[0] for i, sl in lit_jobs], timeout=600)
+        lreq, limpl, lmodel = [], [], []
+        breqs = []
+        for (i, sl), mo in zip(lit_jobs, mouts):
+            exp = mo.split(" ")[1] if mo.startswith("ok ") else "-"
+            breqs.append(f"{sl[1]} {hx(sl[2])} {exp}")
+        bouts = run_lines([bytelit], breqs, timeout=600)
+        special = collections.Counter()
+        for (i, sl), mo, bo in zip(lit_jobs, mouts, bouts):
+            j = jobs[i]
+            d = ic.parse_kv(bo.split("\t")[0]); verdict = bo.split("\t")[1] if "\t" in bo else "spec=missing"
+            src_id = j.get("wit") or j.get("path")
+            if mo.startswith("ok "):
+                eb = bytes.fromhex(mo[3:]) if mo[3:] != "-" else b""
+                for b in (9, 10, 13, 32, 34, 92, 127):
+                    if b in eb: special["byte 0x%02x" % b] += 1
+                if any(x >= 0x80 for x in eb): special["byte >= 0x80"] += 1
+                lreq.append(json.dumps({"src": src_id, "opts": j["opts"]})); limpl.append("literal=model"); lmodel.append("literal=model" if d.get("model_eq") == "1" else "literal differs from sectionLiteral(metadata)")
+            if verdict != "spec=ok":
+                c.spec_violation("rust-component-type-literal:" + verdict.replace("spec=", ""),
+                                 "the byte-string literal of __WIT_BINDGEN_COMPONENT_TYPE does not denote the N bytes of the world's encoded component type "
+                                 "(the wasm32 build fails or the module would not componentize as that world)",
+                                 {"wit": j.get("wit") or (open(j["path"]).read() if os.path.isfile(j.get("path", "")) else j.get("path")), "opts": j["opts"],
+                                  "declared_N": sl[1], "decoded_length": d.get("n"), "verdict": verdict, "literal_head": sl[2][:400],
+                                  "replay": "ident-run rustgen <opts> <hex wit> - ; lexer: m_bytelit; or rustc with the cfg(target_arch) attribute removed"})
+        c.compare("component-type-literal", lreq, limpl, lmodel)
+        c.cov["component_type_literals"] = {"checked": len(lit_jobs), "worlds_containing": dict(sorted(special.items()))}
+    phase("component-type literal")
     def work(i):
         j, g = jobs[i], gout[i]
         files = ic.decode_files(g)
         if files is None: return ("gen-" + g.split(" ")[0], ic.gen_error(g))
         src = next(iter(files.values()))
+        # the component-type static is `#[cfg(target_arch = "wasm32")]`: drop that cfg so that the native rustc
+        # type-checks `[u8; N] = *b"…"` too (no wasm32 target is installed)
+        src = re.sub(r'#\[cfg\(target_arch = "wasm32"\)\]\n(#\[unsafe\(link_section = "component-type)', r"\1", src)
         p = os.path.join(WORK, f"w{i}.rs")
         open(p, "w").write(src)
         okc, diags = rustc(p, rmeta)
@@ -330,7 +414,7 @@ def run(c):
                              dict(witness, predicted_reasons=reasons, rustc=detail[:3]))
     c.compare("rustc-accepts-vs-model", reqs, impl_ans, model_ans)
     c.cov["worlds"] = dict(sorted(hist.items()))
-    c.cov["jobs"] = {"total": len(jobs), "codegen_corpus_entries": len(codegen), "systematic": len(sysw), "seeded": n_seeded}
+    c.cov["jobs"] = {"total": len(jobs), "codegen_corpus_entries": len(codegen), "systematic": len(sysw), "seeded": n_seeded, "meta_bytes": len(metaw)}
     c.sample({"wit": jobs[-1].get("wit", "")[:600], "opts": jobs[-1]["opts"], "rustc": res[-1][0]})
     c.cov["search"] = ("rustc --edition 2024 --crate-type lib --emit=metadata -Dwarnings on the real generator's output for every world of this run; "
                        "IdentSpec.notKeyword (Lean spec table) on the real to_rust_ident outputs")
